@@ -19,6 +19,6 @@ one() {
   if [ -z "$res" ]; then echo "$n MISSED"; elif echo "$res" | grep -q no-failing; then echo "$n TIE-ONLY"; else echo "$n CAUGHT"; fi
 }
 export -f one
-ls seeded | xargs -P $J -I{} bash -c 'one {}' >> $OUT
+ls seeded | grep -v SWEEP | grep -E "${FILTER:-.}" | xargs -P $J -I{} bash -c 'one {}' >> $OUT
 sort -V $OUT -o $OUT
 awk '{c[$2]++} END{for(k in c) print k, c[k]}' $OUT
